@@ -226,6 +226,28 @@ def run(repo: Repo, L: Ledger, tier: str):
                 ctl = _control_flag_facts(call, mine)
                 governed = bool(names_in(mode) & (mine | _locals_depending_on(f, mine))) or bool(ctl)
                 if not governed:
+                    # what is opened?  a scratch name derived from the output path (to be moved into place afterwards) is a
+                    # publication protocol these rules do not model
+                    tgt_e = call.func.value if isinstance(call.func, ast.Attribute) else (call.args[0] if call.args else None)
+                    from ..util import local_defs as _ld
+
+                    exprs_, seen_ = [tgt_e] if tgt_e is not None else [], set()
+                    k_ = 0
+                    while k_ < len(exprs_) and k_ < 30:
+                        e_ = exprs_[k_]
+                        k_ += 1
+                        for nm_ in names_in(e_):
+                            if nm_ not in seen_:
+                                seen_.add(nm_)
+                                exprs_.extend(_ld(f, nm_))
+                        if isinstance(e_, ast.Attribute) and is_name(e_.value, "self") and f.cls is not None:
+                            for m_ in f.cls.methods.values():
+                                for st_ in walk_shallow(m_.node):
+                                    if isinstance(st_, ast.Assign) and any(norm(t_) == norm(e_) for t_ in st_.targets):
+                                        exprs_.append(st_.value)
+                    txt_ = " ".join(norm(e_) for e_ in exprs_)
+                    if any(tok in txt_ for tok in ("tmp_file_for", "with_name", "with_suffix", "mkstemp", "NamedTemporaryFile", "getpid", ".tmp")):
+                        raise AnalysisError(f"C16.R1 {inst}: a scratch file derived from the output path is opened with mode '{norm(mode)}' (to be moved into place later): publication protocols are not modelled")
                     L.fail("R1", inst, f"file opened for writing with mode '{norm(mode)}' that does not depend on the clobber flag", f.loc(call))
                     continue
                 n_governed += 1
@@ -238,7 +260,18 @@ def run(repo: Repo, L: Ledger, tier: str):
                 _check_os_open(L, f, call, mine)
                 n_governed += 1
             else:
-                L.fail("R1", inst, f"file-system mutator '{site}' reachable from the CLI outside the clobber-governed open", f.loc(call))
+                ctl_ = _control_flag_facts(call, mine)
+                on_when_clobber = any(v_ is True for v_ in ctl_.values())
+                tgt_ = call.func.value if isinstance(call.func, ast.Attribute) and site in WRITE_METHODS else (call.args[0] if call.args else None)
+                if site in ("write_text", "write_bytes") and mine and not on_when_clobber:
+                    L.fail("R1", inst, f"'{norm(call)[:60]}' creates or overwrites the file whatever the clobber flag says, in a function that receives the flag ({sorted(mine)}): with --no-clobber a pre-existing file is replaced", f.loc(call))
+                    continue
+                if site in ("unlink", "os.unlink", "os.remove", "os.truncate") and mine and not on_when_clobber and tgt_ is not None:
+                    opened = [norm(c2.func.value) if isinstance(c2.func, ast.Attribute) else (norm(c2.args[0]) if c2.args else "") for c2 in repo.calls_in(f) if open_mode_expr(c2)[0]]
+                    if norm(tgt_) in opened:
+                        L.fail("R1", inst, f"'{norm(call)[:60]}' removes / empties the very path this function then opens, whatever the clobber flag says: with --no-clobber a pre-existing file is destroyed before the exclusive create can refuse it", f.loc(call))
+                        continue
+                raise AnalysisError(f"C16.R1 {inst}: file-system mutator '{site}' is reachable from the CLI outside the clobber-governed open: whether it can touch a pre-existing output is not decided")
     L.floor("R1", "file-writing sites reachable from pretext-to-asm", n_sites, 4)
     L.floor("R1", "clobber-governed sites", n_governed, 2)
     L.extra["reachable_functions"] = len(reach)
